@@ -111,7 +111,8 @@ class SimNcp:
     def invalid_command(self, seq):
         name = "invalidCommand"
         cid, tx, rx = self.cls.COMMANDS[name]
-        self._send(seq, cid, rx, {"reason": 0x36 if self.table_version < 14 else 0x21}, refezsp.RESPONSE)
+        field = list(rx)[0]
+        self._send(seq, cid, rx, {field: 0x36 if self.table_version < 14 else 0x21}, refezsp.RESPONSE)
 
     def status_value(self, T, code):
         """abstract status name or int -> value of the schema's status type"""
